@@ -8,7 +8,12 @@ rules see one spelling of a computation instead of having to know every refactor
     between) whose only uses are in that if / elif chain's tests — the "hoist the condition into a variable"
     refactoring read backwards.
 
-Both are classical copy-propagation / inlining steps; they assume the moved expressions have no side effects that the
+(3) `x = x <op> e` on a plain numeric / text local is written `x <op>= e`.
+(4) a `+` chain of text literals, f-strings and `str(...)` calls is written as one f-string.
+(5) `return all(P for x in it)` / `any(...)` is written as the early-exit loop it abbreviates.
+(6) `x = []` directly followed by a loop that only appends to x is written as the list comprehension.
+
+(1) and (2) are classical copy-propagation / inlining steps; they assume the moved expressions have no side effects that the
 statements they cross depend on (they cross only other condition temporaries).  Positions of moved nodes are kept
 (1: the call site, 2: the original expression), so reports still point at real lines.  On the pinned tree (1) finds
 no call site and (2) no temporary: the normal form of today's code is today's code.
@@ -246,7 +251,206 @@ def propagate_condition_temps(tree: ast.Module) -> int:
     return total
 
 
+# ---------------------------------------------------------------------------------------------- (3) updates
+def canonicalise_updates(tree: ast.Module) -> int:
+    """`x = x <op> e` on a plain local that is never used as a container in its function becomes `x <op>= e`
+    (for numbers and text the two are the same statement; containers are left alone because `x = x + y` rebinds
+    where `x += y` mutates in place)."""
+    total = 0
+    for fn in [n for n in ast.walk(tree) if isinstance(n, FUNC)]:
+        cont = set()
+        for n in ast.walk(fn):
+            if isinstance(n, ast.Subscript) and isinstance(n.value, ast.Name):
+                cont.add(n.value.id)
+            elif isinstance(n, ast.Call) and isinstance(n.func, ast.Attribute) and isinstance(n.func.value, ast.Name):
+                cont.add(n.func.value.id)
+            elif isinstance(n, (ast.For, ast.comprehension)) and isinstance(n.iter, ast.Name):
+                cont.add(n.iter.id)
+            elif isinstance(n, ast.Assign) and isinstance(n.value, (ast.List, ast.Dict, ast.Set, ast.ListComp, ast.DictComp, ast.SetComp)):
+                cont.update(t.id for t in n.targets if isinstance(t, ast.Name))
+            elif isinstance(n, (ast.Global, ast.Nonlocal)):
+                cont.update(n.names)
+        for holder in ast.walk(fn):
+            for fld in ("body", "orelse", "finalbody"):
+                block = getattr(holder, fld, None)
+                if not (isinstance(block, list) and block and isinstance(block[0], ast.stmt)):
+                    continue
+                for i, st in enumerate(block):
+                    if isinstance(st, ast.Assign) and len(st.targets) == 1 and isinstance(st.targets[0], ast.Name) and isinstance(st.value, ast.BinOp) \
+                            and isinstance(st.value.op, (ast.Add, ast.Sub, ast.Mult, ast.Div)) and isinstance(st.value.left, ast.Name) \
+                            and st.value.left.id == st.targets[0].id and st.targets[0].id not in cont \
+                            and not isinstance(st.value.right, (ast.List, ast.ListComp, ast.Tuple)):
+                        new = ast.AugAssign(target=ast.Name(id=st.targets[0].id, ctx=ast.Store()), op=st.value.op, value=st.value.right)
+                        ast.copy_location(new, st)
+                        ast.copy_location(new.target, st.targets[0])
+                        block[i] = new
+                        total += 1
+    return total
+
+
+# ---------------------------------------------------------------------------------------------- (4) text building
+def _text_leaves(e):
+    """leaves of a `+` chain if each is a text literal, an f-string or str(<expr>); None otherwise"""
+    if isinstance(e, ast.BinOp) and isinstance(e.op, ast.Add):
+        a, b = _text_leaves(e.left), _text_leaves(e.right)
+        return None if a is None or b is None else a + b
+    if isinstance(e, ast.Constant) and isinstance(e.value, str):
+        return [e]
+    if isinstance(e, ast.JoinedStr):
+        return [e]
+    if isinstance(e, ast.Call) and isinstance(e.func, ast.Name) and e.func.id == "str" and len(e.args) == 1 and not e.keywords:
+        return [e]
+    return None
+
+
+class _Concat(ast.NodeTransformer):
+    def __init__(self):
+        self.count = 0
+
+    def visit_BinOp(self, node):
+        leaves = _text_leaves(node)
+        if leaves is None or len(leaves) < 2 or not any(isinstance(x, (ast.Constant, ast.JoinedStr)) for x in leaves):
+            return self.generic_visit(node)
+        values = []
+        for x in leaves:
+            if isinstance(x, ast.Constant):
+                if values and isinstance(values[-1], ast.Constant):
+                    values[-1] = ast.Constant(values[-1].value + x.value)
+                else:
+                    values.append(ast.Constant(x.value))
+            elif isinstance(x, ast.JoinedStr):
+                for v in x.values:
+                    v = self.visit(v) if isinstance(v, ast.FormattedValue) else v
+                    if isinstance(v, ast.Constant) and values and isinstance(values[-1], ast.Constant):
+                        values[-1] = ast.Constant(values[-1].value + v.value)
+                    else:
+                        values.append(v)
+            else:
+                values.append(ast.FormattedValue(value=self.visit(x.args[0]), conversion=-1, format_spec=None))
+        new = ast.JoinedStr(values=values)
+        for n in ast.walk(new):
+            if isinstance(n, ast.expr) and not hasattr(n, "lineno"):
+                ast.copy_location(n, node)
+        self.count += 1
+        return ast.copy_location(new, node)
+
+
+def canonicalise_text_building(tree: ast.Module) -> int:
+    """`"a" + str(x) + "b"` (literals, f-strings and str(...) joined by +) is written as the f-string f"a{x}b"."""
+    t = _Concat()
+    t.visit(tree)
+    ast.fix_missing_locations(tree)
+    return t.count
+
+
+# ---------------------------------------------------------------------------------------------- (5) all() / any()
+def _quantifier(e):
+    """('all'|'any', element, comprehension) for all(<elt> for x in it) / any(...) with one plain generator"""
+    if isinstance(e, ast.Call) and isinstance(e.func, ast.Name) and e.func.id in ("all", "any") and len(e.args) == 1 and not e.keywords \
+            and isinstance(e.args[0], (ast.GeneratorExp, ast.ListComp)) and len(e.args[0].generators) == 1 and not e.args[0].generators[0].is_async:
+        return e.func.id, e.args[0].elt, e.args[0].generators[0]
+    return None
+
+
+def _neg(e):
+    if isinstance(e, ast.UnaryOp) and isinstance(e.op, ast.Not):
+        return e.operand
+    return ast.UnaryOp(op=ast.Not(), operand=e)
+
+
+def expand_quantified_returns(tree: ast.Module) -> int:
+    """`return all(P for x in it)` is written as the loop `for x in it: if not P: return False` + `return True`
+    (`any` dually; `return A and all(...)` first tests A) — the early-exit loop is the form the rules know."""
+    total = 0
+    for holder in ast.walk(tree):
+        for fld in ("body", "orelse", "finalbody"):
+            block = getattr(holder, fld, None)
+            if not (isinstance(block, list) and block and isinstance(block[0], ast.stmt)):
+                continue
+            i = 0
+            while i < len(block):
+                st = block[i]
+                if isinstance(st, ast.Return) and st.value is not None:
+                    v = st.value
+                    pre = []
+                    if isinstance(v, ast.BoolOp) and isinstance(v.op, ast.And) and _quantifier(v.values[-1]) and _quantifier(v.values[-1])[0] == "all":
+                        pre, v = v.values[:-1], v.values[-1]
+                    q = _quantifier(v)
+                    if q is not None:
+                        kind, elt, gen = q
+                        new = []
+                        for a in pre:
+                            new.append(ast.If(test=_neg(a), body=[ast.Return(value=ast.Constant(False))], orelse=[]))
+                        test = _neg(elt) if kind == "all" else elt
+                        for cond in reversed(gen.ifs):
+                            pass
+                        inner = ast.If(test=test, body=[ast.Return(value=ast.Constant(kind == "any"))], orelse=[])
+                        body = [inner]
+                        for cond in reversed(gen.ifs):
+                            body = [ast.If(test=cond, body=body, orelse=[])]
+                        new.append(ast.For(target=gen.target, iter=gen.iter, body=body, orelse=[], type_comment=None))
+                        new.append(ast.Return(value=ast.Constant(kind == "all")))
+                        for n_ in new:
+                            for x in ast.walk(n_):
+                                if isinstance(x, (ast.stmt, ast.expr)) and not hasattr(x, "lineno"):
+                                    ast.copy_location(x, st)
+                        # comprehension targets are Store already; make sure
+                        for x in ast.walk(gen.target):
+                            if isinstance(x, ast.Name):
+                                x.ctx = ast.Store()
+                        block[i:i + 1] = new
+                        total += 1
+                        i += len(new)
+                        continue
+                i += 1
+    ast.fix_missing_locations(tree)
+    return total
+
+
+# ---------------------------------------------------------------------------------------------- (6) append loops
+def comprehend_append_loops(tree: ast.Module) -> int:
+    """`x = []` directly followed by `for t in it: [if c:] x.append(e)` is written `x = [e for t in it if c]`."""
+    total = 0
+    for holder in ast.walk(tree):
+        for fld in ("body", "orelse", "finalbody"):
+            block = getattr(holder, fld, None)
+            if not (isinstance(block, list) and block and isinstance(block[0], ast.stmt)):
+                continue
+            i = 0
+            while i + 1 < len(block):
+                a, b = block[i], block[i + 1]
+                i += 1
+                if not (isinstance(a, ast.Assign) and isinstance(a.value, ast.List) and not a.value.elts and len(a.targets) == 1 and isinstance(a.targets[0], ast.Name)
+                        and isinstance(b, ast.For) and not b.orelse):
+                    continue
+                x = a.targets[0].id
+                conds, body = [], b.body
+                while len(body) == 1 and isinstance(body[0], ast.If) and not body[0].orelse:
+                    conds.append(body[0].test)
+                    body = body[0].body
+                if not (len(body) == 1 and isinstance(body[0], ast.Expr) and isinstance(body[0].value, ast.Call) and isinstance(body[0].value.func, ast.Attribute)
+                        and body[0].value.func.attr == "append" and isinstance(body[0].value.func.value, ast.Name) and body[0].value.func.value.id == x
+                        and len(body[0].value.args) == 1 and not body[0].value.keywords):
+                    continue
+                elt = body[0].value.args[0]
+                if any(isinstance(n, ast.Name) and n.id == x for e in [b.iter, elt] + conds for n in ast.walk(e)):
+                    continue
+                if any(isinstance(n, (ast.Yield, ast.YieldFrom, ast.Await, ast.NamedExpr)) for e in [b.iter, elt] + conds for n in ast.walk(e)):
+                    continue
+                comp = ast.ListComp(elt=elt, generators=[ast.comprehension(target=b.target, iter=b.iter, ifs=conds, is_async=0)])
+                ast.copy_location(comp, b)
+                a.value = comp
+                del block[i]
+                total += 1
+    ast.fix_missing_locations(tree)
+    return total
+
+
 def normalise(tree: ast.Module) -> Dict[str, int]:
     a = inline_trivial_helpers(tree)
     b = propagate_condition_temps(tree)
-    return {"helpers_inlined": a, "condition_temporaries": b}
+    c = canonicalise_updates(tree)
+    d = canonicalise_text_building(tree)
+    q = expand_quantified_returns(tree)
+    l = comprehend_append_loops(tree)
+    return {"append_loops": l, "helpers_inlined": a, "condition_temporaries": b, "updates": c, "text_concatenations": d, "quantified_returns": q}
